@@ -4,17 +4,21 @@ C16 — Value hashes depend only on the value.
 Model: `RedunModel.Model.ValueHash` — a value as laid out in one process (`V`: set / frozenset nodes list
 their elements in iteration order), `Sim` = "the same value" laid out in another process or after
 another insertion order, `getHash` = the pre-image `TypeRegistry.get_hash` feeds to SHA-512
-(`Set.get_hash` sorts an exact top-level `set`; everything else is pickled as laid out).
+(`Set.get_hash` sorts an exact top-level `set` — by `<`, or by the elements' own value hashes when `<` raises
+TypeError; everything else is pickled as laid out).  The digest function `H` is a parameter.
 The full-strength statement is `OrderIndependent`; it is FALSE of the code as it is
 (`order_independent_refuted` and the closed witnesses); what holds is `hash_stable_setfree`,
-`partial_top_set*` and the exact characterisation `nonset_hash_eq_iff`.
+`partial_top_set*`, `partial_top_set_unorderable` and the exact characterisation `nonset_hash_eq_iff`.
 -/
 import RedunModel.Lemmas.ValueHash
 namespace RedunModel.C16
 open RedunModel.ValueHash
 
+-- the digest function (SHA-512/160 of tag + pickle) is a parameter of every statement
+variable (H : Pre → Nat)
+
 /-- The property, full strength: the same value hashes the same however its sets are laid out. -/
-def OrderIndependent : Prop := ∀ a b : V, Sim a b → getHash a = getHash b
+def OrderIndependent (H : Pre → Nat) : Prop := ∀ a b : V, Sim a b → getHash H a = getHash H b
 
 /-- "The same value up to set layout" is an equivalence relation, so the hash classes are well defined. -/
 theorem sim_equivalence : Equivalence Sim := ⟨sim_refl, fun {a b} => sim_symm a b, fun {a b c} => sim_trans a b c⟩
@@ -22,11 +26,11 @@ theorem sim_equivalence : Equivalence Sim := ⟨sim_refl, fun {a b} => sim_symm 
 /-! ## what holds -/
 
 /-- A value without any set/frozenset has a single layout, hence a single hash, in every process. -/
-theorem hash_stable_setfree (a b : V) (hf : SetFree a) (h : Sim a b) : getHash a = getHash b := by
+theorem hash_stable_setfree (a b : V) (hf : SetFree a) (h : Sim a b) : getHash H a = getHash H b := by
   rw [sim_eq_of_setFree a b hf h]
 
 /-- More generally: a value all of whose sets/frozensets have at most one element has a single layout. -/
-theorem hash_stable_rigid (a b : V) (hr : Rigid a) (h : Sim a b) : getHash a = getHash b := by
+theorem hash_stable_rigid (a b : V) (hr : Rigid a) (h : Sim a b) : getHash H a = getHash H b := by
   rw [sim_eq_of_rigid a b hr h]
 
 /-- `sorted` on scalars of one orderable kind is the insertion sort. -/
@@ -36,11 +40,23 @@ theorem pySorted_scalars {k : Kind} (hk : k = .num ∨ k = .str ∨ k = .bytes) 
   | [] => rfl
   | [x] => rfl
   | x :: y :: r =>
-    have hx : kind x = k := h x (by simp)
-    have hany : (x :: y :: r).any (fun z => kind z != kind x) = false := by
-      rw [List.any_eq_false]; intro z hz; simp [h z hz, hx]
-    simp only [pySorted, hany]
-    rcases hk with rfl | rfl | rfl <;> simp [hx]
+    have hlen : ¬ (x :: y :: r).length ≤ 1 := by simp
+    have hun : (x :: y :: r).any (fun z => kind z == .unhashable) = false := by
+      rw [List.any_eq_false]; intro z hz; rw [h z hz]; rcases hk with rfl | rfl | rfl <;> simp
+    have hmix : mixedKinds (x :: y :: r) = false := by
+      unfold mixedKinds; rw [List.any_eq_false]; intro a ha
+      simp only [Bool.not_eq_true]; rw [List.any_eq_false]; intro b hb
+      simp [h a ha, h b hb]
+    have hall : allKind k (x :: y :: r) = true := by
+      unfold allKind; rw [List.all_eq_true]; intro a ha; simp [h a ha]
+    have hx := h x (by simp)
+    have hobj : allKind .obj (x :: y :: r) = false := by
+      unfold allKind; rw [List.all_eq_false]; exact ⟨x, by simp, by rw [hx]; rcases hk with rfl | rfl | rfl <;> simp⟩
+    have hnone : allKind .none (x :: y :: r) = false := by
+      unfold allKind; rw [List.all_eq_false]; exact ⟨x, by simp, by rw [hx]; rcases hk with rfl | rfl | rfl <;> simp⟩
+    unfold pySorted
+    rw [if_neg hlen, hun, hmix, hobj, hnone]
+    rcases hk with rfl | rfl | rfl <;> simp [hall]
 
 theorem setFree_of_scalar {k : Kind} (hk : k = .num ∨ k = .str ∨ k = .bytes) {x : V} (h : kind x = k) : SetFree x := by
   rcases hk with rfl | rfl | rfl <;> cases x <;> simp_all [kind, SetFree]
@@ -49,7 +65,7 @@ theorem setFree_of_scalar {k : Kind} (hk : k = .num ∨ k = .str ∨ k = .bytes)
 strs, or bytes, and Python's `<` is a strict total order on them, every layout has the same hash. -/
 theorem partial_top_set {k : Kind} (hk : k = .num ∨ k = .str ∨ k = .bytes) (xs : List V)
     (hkind : ∀ x ∈ xs, kind x = k) (st : StrictTotalOn ltV xs) (b : V) (h : Sim (.set xs) b) :
-    getHash (.set xs) = getHash b := by
+    getHash H (.set xs) = getHash H b := by
   cases h with
   | set hp hs =>
     rename_i zs ys
@@ -86,8 +102,8 @@ theorem strictTotal_int (xs : List V) (h : ∀ x ∈ xs, ∃ z, x = .int z) : St
 
 /-- A top-level `set` of ints hashes the same in every layout (unconditionally). -/
 theorem partial_top_set_int (xs : List V) (hi : ∀ x ∈ xs, ∃ z, x = .int z) (b : V) (h : Sim (.set xs) b) :
-    getHash (.set xs) = getHash b :=
-  partial_top_set (Or.inl rfl) xs (fun x hx => by obtain ⟨z, rfl⟩ := hi x hx; rfl) (strictTotal_int xs hi) b h
+    getHash H (.set xs) = getHash H b :=
+  partial_top_set H (Or.inl rfl) xs (fun x hx => by obtain ⟨z, rfl⟩ := hi x hx; rfl) (strictTotal_int xs hi) b h
 
 theorem strictTotal_str (xs : List V) (h : ∀ x ∈ xs, ∃ s, x = .str s) : StrictTotalOn ltV xs where
   asymm a ha b hb := by
@@ -104,13 +120,64 @@ theorem strictTotal_str (xs : List V) (h : ∀ x ∈ xs, ∃ s, x = .str s) : St
 
 /-- A top-level `set` of strs hashes the same in every layout, whatever PYTHONHASHSEED did to the order. -/
 theorem partial_top_set_str (xs : List V) (hs : ∀ x ∈ xs, ∃ s, x = .str s) (b : V) (h : Sim (.set xs) b) :
-    getHash (.set xs) = getHash b :=
-  partial_top_set (Or.inr (Or.inl rfl)) xs (fun x hx => by obtain ⟨z, rfl⟩ := hs x hx; rfl) (strictTotal_str xs hs) b h
+    getHash H (.set xs) = getHash H b :=
+  partial_top_set H (Or.inr (Or.inl rfl)) xs (fun x hx => by obtain ⟨z, rfl⟩ := hs x hx; rfl) (strictTotal_str xs hs) b h
+
+/-! ### the `TypeError` fallback: elements ordered by their own value hash -/
+
+theorem mixedKinds_perm {xs ys : List V} (p : xs.Perm ys) : mixedKinds xs = mixedKinds ys := by
+  unfold mixedKinds
+  rw [p.any_eq]
+  congr 1; funext a; rw [p.any_eq]
+
+theorem allKind_perm (k : Kind) {xs ys : List V} (p : xs.Perm ys) : allKind k xs = allKind k ys := by
+  unfold allKind; exact p.all_eq
+
+/-- whether `sorted` raises does not depend on the layout -/
+theorem pySorted_typeError_perm {xs ys : List V} (p : xs.Perm ys) (h : pySorted xs = .typeError) :
+    pySorted ys = .typeError := by
+  unfold pySorted at h ⊢
+  rw [← p.length_eq, ← p.any_eq, ← mixedKinds_perm p, ← allKind_perm .obj p, ← allKind_perm .none p]
+  split at h
+  · cases h
+  · split at h
+    · cases h
+    · split at h
+      · rename_i h1 h2 h3; simp [h1, h2, h3]
+      · split at h
+        · cases h
+        · split at h <;> cases h
+
+/-- ordering by digest is a strict total order on elements with pairwise different digests -/
+theorem strictTotal_byHash (xs : List V) (hinj : ∀ a ∈ xs, ∀ b ∈ xs, H (.value a) = H (.value b) → a = b) :
+    StrictTotalOn (ltByHash H) xs where
+  asymm a _ b _ := by simp only [ltByHash, decide_eq_true_eq, decide_eq_false_iff_not]; omega
+  trans a _ b _ c _ := by simp only [ltByHash, decide_eq_true_eq]; omega
+  connected a ha b hb := by
+    simp only [ltByHash, decide_eq_false_iff_not]
+    intro h1 h2
+    exact hinj a ha b hb (by omega)
+
+/-- **Partial (top-level `set` whose `sorted` raises).**  Mixed element kinds, dataclass instances …: the
+elements are ordered by their own value hash.  If every element has a single layout (`Rigid`: no set /
+frozenset with two or more elements inside it) and different elements have different digests, every layout of
+the set has the same hash. -/
+theorem partial_top_set_unorderable (xs : List V) (hraise : pySorted xs = .typeError)
+    (hr : ∀ x ∈ xs, Rigid x) (hinj : ∀ a ∈ xs, ∀ b ∈ xs, H (.value a) = H (.value b) → a = b)
+    (b : V) (h : Sim (.set xs) b) : getHash H (.set xs) = getHash H b := by
+  cases h with
+  | set hp hs =>
+    rename_i zs ys
+    have hz : zs = ys := sims_eq' (fun x _ b hf hb => sim_eq_of_rigid x b hf hb)
+      (fun x hx => hr x (hp.mem_iff.2 hx)) hs
+    subst hz
+    simp only [getHash, hraise, pySorted_typeError_perm hp hraise,
+      isort_eq_of_perm (ltByHash H) hp (strictTotal_byHash H xs hinj)]
 
 /-- Everything that is not an exact top-level `set` is hashed as laid out: two layouts have the same hash
 iff they are the same layout.  (This is what predicts, value by value, which hashes move.) -/
 theorem nonset_hash_eq_iff (a b : V) (ha : ∀ xs, a ≠ .set xs) (hb : ∀ xs, b ≠ .set xs) :
-    getHash a = getHash b ↔ a = b := by
+    getHash H a = getHash H b ↔ a = b := by
   constructor
   · intro h
     cases a <;> cases b <;> simp_all [getHash]
@@ -123,27 +190,27 @@ private def sb : V := .str [98]
 /-- `[{"a","b"}]` -/
 theorem refuted_nested_list :
     Sim (.list [.set [sa, sb]]) (.list [.set [sb, sa]]) ∧
-    getHash (.list [.set [sa, sb]]) ≠ getHash (.list [.set [sb, sa]]) := by
+    getHash H (.list [.set [sa, sb]]) ≠ getHash H (.list [.set [sb, sa]]) := by
   refine ⟨.list (.cons (sim_set_of_perm (List.Perm.swap _ _ _)) .nil), ?_⟩
   simp [getHash, sa, sb]
 
 /-- `{"k": {"a","b"}}` -/
 theorem refuted_dict_value :
     Sim (.dict [.str [107]] [.set [sa, sb]]) (.dict [.str [107]] [.set [sb, sa]]) ∧
-    getHash (.dict [.str [107]] [.set [sa, sb]]) ≠ getHash (.dict [.str [107]] [.set [sb, sa]]) := by
+    getHash H (.dict [.str [107]] [.set [sa, sb]]) ≠ getHash H (.dict [.str [107]] [.set [sb, sa]]) := by
   refine ⟨.dict (.cons (.str _) .nil) (.cons (sim_set_of_perm (List.Perm.swap _ _ _)) .nil), ?_⟩
   simp [getHash, sa, sb]
 
 /-- a top-level `frozenset({"a","b"})` (the `Set` proxy is registered for `set` only) -/
 theorem refuted_frozenset :
-    Sim (.fset [sa, sb]) (.fset [sb, sa]) ∧ getHash (.fset [sa, sb]) ≠ getHash (.fset [sb, sa]) := by
+    Sim (.fset [sa, sb]) (.fset [sb, sa]) ∧ getHash H (.fset [sa, sb]) ≠ getHash H (.fset [sb, sa]) := by
   refine ⟨sim_fset_of_perm (List.Perm.swap _ _ _), ?_⟩
   simp [getHash, sa, sb]
 
 /-- a top-level `set` is sorted, but its elements are still pickled as laid out: `{frozenset({"a","b"})}` -/
 theorem refuted_set_of_frozenset :
     Sim (.set [.fset [sa, sb]]) (.set [.fset [sb, sa]]) ∧
-    getHash (.set [.fset [sa, sb]]) ≠ getHash (.set [.fset [sb, sa]]) := by
+    getHash H (.set [.fset [sa, sb]]) ≠ getHash H (.set [.fset [sb, sa]]) := by
   refine ⟨.set (List.Perm.refl _) (.cons (sim_fset_of_perm (List.Perm.swap _ _ _)) .nil), ?_⟩
   simp [getHash, pySorted, sa, sb]
 
@@ -151,20 +218,36 @@ theorem refuted_set_of_frozenset :
 land in slot 0 of the table). -/
 theorem refuted_insertion_order_ints :
     Sim (.list [.set [.int 8, .int 0]]) (.list [.set [.int 0, .int 8]]) ∧
-    getHash (.list [.set [.int 8, .int 0]]) ≠ getHash (.list [.set [.int 0, .int 8]]) := by
+    getHash H (.list [.set [.int 8, .int 0]]) ≠ getHash H (.list [.set [.int 0, .int 8]]) := by
   refine ⟨.list (.cons (sim_set_of_perm (List.Perm.swap _ _ _)) .nil), ?_⟩
   simp [getHash]
+
+/-- the fallback does not help when an element itself has two layouts: `{frozenset({"a","b"}), 1}` — the
+element's digest (sort key) and its pickle both follow its layout -/
+theorem refuted_unorderable_with_frozenset :
+    Sim (.set [.fset [sa, sb], .int 1]) (.set [.fset [sb, sa], .int 1]) ∧
+    getHash H (.set [.fset [sa, sb], .int 1]) ≠ getHash H (.set [.fset [sb, sa], .int 1]) := by
+  refine ⟨.set (List.Perm.refl _) (.cons (sim_fset_of_perm (List.Perm.swap _ _ _)) (.cons (.int 1) .nil)), ?_⟩
+  have h1 : pySorted [.fset [sa, sb], .int 1] = .typeError := by simp [pySorted, mixedKinds, allKind, kind]
+  have h2 : pySorted [.fset [sb, sa], .int 1] = .typeError := by simp [pySorted, mixedKinds, allKind, kind]
+  simp only [getHash, h1, h2, ne_eq, HashRes.ok.injEq, Pre.valueSet.injEq]
+  intro heq
+  have hm : V.fset [sa, sb] ∈ isort (ltByHash H) [.fset [sa, sb], .int 1] :=
+    (isort_perm _ _).mem_iff.2 (by simp)
+  rw [heq] at hm
+  have := (isort_perm _ _).mem_iff.1 hm
+  simp [sa, sb] at this
 
 /-- The witnesses are not isolated: ANY frozenset with two different first elements, and ANY such set directly
 inside a list, has two layouts with different hashes. -/
 theorem frozenset_sensitive (x y : V) (r : List V) (hxy : x ≠ y) :
-    Sim (.fset (x :: y :: r)) (.fset (y :: x :: r)) ∧ getHash (.fset (x :: y :: r)) ≠ getHash (.fset (y :: x :: r)) := by
+    Sim (.fset (x :: y :: r)) (.fset (y :: x :: r)) ∧ getHash H (.fset (x :: y :: r)) ≠ getHash H (.fset (y :: x :: r)) := by
   refine ⟨sim_fset_of_perm (List.Perm.swap _ _ _), ?_⟩
   simp [getHash, hxy]
 
 theorem nested_set_sensitive (x y : V) (r pre post : List V) (hxy : x ≠ y) :
     Sim (.list (pre ++ .set (x :: y :: r) :: post)) (.list (pre ++ .set (y :: x :: r) :: post)) ∧
-    getHash (.list (pre ++ .set (x :: y :: r) :: post)) ≠ getHash (.list (pre ++ .set (y :: x :: r) :: post)) := by
+    getHash H (.list (pre ++ .set (x :: y :: r) :: post)) ≠ getHash H (.list (pre ++ .set (y :: x :: r) :: post)) := by
   constructor
   · refine .list ?_
     induction pre with
@@ -173,14 +256,17 @@ theorem nested_set_sensitive (x y : V) (r pre post : List V) (hxy : x ≠ y) :
   · simp [getHash, hxy]
 
 /-- The full-strength property does not hold of the code as it is. -/
-theorem order_independent_refuted : ¬ OrderIndependent := fun h =>
-  refuted_nested_list.2 (h _ _ refuted_nested_list.1)
+theorem order_independent_refuted : ¬ OrderIndependent H := fun h =>
+  (refuted_nested_list H).2 (h _ _ (refuted_nested_list H).1)
 
 /-! ## non-vacuity -/
-example : getHash (.set [sb, sa]) = getHash (.set [sa, sb]) :=
-  partial_top_set_str [sb, sa] (by simp [sa, sb]) _ (sim_set_of_perm (List.Perm.swap _ _ _))
-example : getHash (.set [sb, sa]) = .ok (.valueSet [sa, sb]) := by
-  simp [getHash, pySorted, kind, isort, insertBy, ltV_str, sa, sb]
+example : getHash H (.set [sb, sa]) = getHash H (.set [sa, sb]) :=
+  partial_top_set_str H [sb, sa] (by simp [sa, sb]) _ (sim_set_of_perm (List.Perm.swap _ _ _))
+example : getHash H (.set [sb, sa]) = .ok (.valueSet [sa, sb]) := by
+  have h : pySorted [sb, sa] = .ok (isort ltV [sb, sa]) :=
+    pySorted_scalars (Or.inr (Or.inl rfl)) _ (by simp [sa, sb, kind])
+  simp only [getHash, h]
+  simp [isort, insertBy, ltV_str, sa, sb]
   decide
 
 end RedunModel.C16
